@@ -237,7 +237,7 @@ static void scenario_queue(uint64_t cid, vh::Rng r) {
         const size_t id = steal ? q->try_get_task(tasks) : q->get_task(tasks);
         if (id == NO_TASK) {
           ++fruitless;
-          if (producers_left.load() == 0 && fruitless > 3000000) {
+          if (producers_left.load() == 0 && fruitless > 300000) {
             // nothing obtainable for a very long time although work remains: decide at quiescence below
             giveup = true;
           }
@@ -301,7 +301,7 @@ static void scenario_queue(uint64_t cid, vh::Rng r) {
       TVIOL("queue/not-obtainable-at-quiescence", cid, "%" PRIu64 " tasks are queued and no lock is held, but only %" PRIu64 " could be obtained (%d locks, %" PRIu64 " tasks list one lock twice)",
             left, got, L, same_twice.load());
     else if (giveup.load())
-      TVIOL("queue/starved", cid, "consumers could not obtain any of %" PRIu64 " queued tasks in 3e6 consecutive polls although they were obtainable at quiescence", left);
+      TVIOL("queue/starved", cid, "consumers could not obtain any of %" PRIu64 " queued tasks in 3e5 consecutive polls although they were obtainable at quiescence", left);
   }
   for (size_t i = 0; i < total + 16; ++i)
     if (enq[i].load() == 1 && popped[i].load() != 1) {
